@@ -56,3 +56,9 @@ check("C03", "exploration",
       [native("thorough"), miri(shards=4)],
       minima={"foreign_datagrams_fed": 10000, "fork_points": 500, "twin_differentials": 200,
               "token_request_exceptions": 10, "acceptor_tokens_checked": 100, "scripted_reserved_draws": 10, "fork_states": 8})
+
+check("C20", "fault_enumeration",
+      [native("quick")],
+      [native("thorough"), miri(shards=4)],
+      minima={"feeds_known_peer": 5000, "pending_peers_created": 200, "accepts": 100, "rejects": 20, "remote_closes": 50,
+              "net_disconnects": 50, "garbage_fed": 500, "outgoing_connects": 100, "histories_non_accepting": 50, "net_ticks": 500})
